@@ -651,6 +651,7 @@ pub fn replay(doc: &Value) -> i32 {
 
 pub fn main(env: &Env) -> i32 {
     let mut rep = Report::new("C20", "exploration", env);
+    rep.expected_probes = vec!["policy.uniform", "policy.pct", "policy.run_to_completion", "runs_with_nested_queries_inside_iterator_steps", "context_switches", "scheduling_points", "threads.2", "threads.12", "runs_with_two_handle_sets"];
     rep.real.push("real std::thread OS threads, real thread-locals, real lazy_static Once behind ProguardMapping::uuid".into());
     rep.stubs = vec!["the scheduler: a seeded baton releases exactly one thread at a time; scheduling points between library calls and between next() calls of frame iterators".into()];
     rep.assumptions = vec![
@@ -689,6 +690,9 @@ pub fn main(env: &Env) -> i32 {
         });
         if sc.nested_pct > 0 {
             st.inc("runs_with_nested_queries_inside_iterator_steps");
+        }
+        if sc.mapping2.is_some() {
+            st.inc("runs_with_two_handle_sets");
         }
         if r.switches > 0 {
             let mut d = Digest::default();
